@@ -131,6 +131,16 @@ class Node(fm.TimeComponent):
         if self.k % every == 0:  # sparse publishers leave Output.time behind the component time in between
             for j in range(self.nout):
                 self.outputs[f"out{j}"].push_data(self.value(j, self.k), t)
+        elif self.spec.get("bad_records"):
+            # a source with a malformed record in between: the publication is refused, the component skips it and goes on
+            for j in range(self.nout):
+                if not self.outputs[f"out{j}"].has_targets:
+                    continue  # pushes to unconnected outputs are skipped by design
+                try:
+                    self.outputs[f"out{j}"].push_data(np.zeros(3), t)
+                    self.ctx.errors.append("malformed publication accepted")
+                except fm.FinamDataError:
+                    self.ctx.refused_publications = getattr(self.ctx, "refused_publications", 0) + 1
 
     def _finalize(self):
         self.calls.append("F")
